@@ -1,4 +1,5 @@
 import IceProofs.AgentC07Sys
+import IceTie.Order
 /-!
 # C07 — application data travels only over validated pairs and only from known peers
 
@@ -558,5 +559,39 @@ example :
 example :
     let s := { sysAB with inflight := [{ src := 20, dst := 32, p := .data 40 }], nat := [(20, 16)] }
     (s.deliver 0 false).1.b.rx = [40] := by decide
+
+/-- `candidateBase.handleInboundPacket` (candidate_base.go, regenerated in effect mode), all arguments: a STUN message goes to the
+STUN handler and nothing else; a data packet probes the cache, on a miss asks the agent and is DROPPED when the source is no
+remote candidate; otherwise it is queued and — only if the queueing succeeded, with the number of bytes queued, and only when a
+pair is selected — credited to the selected pair AFTER it was queued; the model drops a packet from an unknown source the same way -/
+theorem C07_code_handleInboundPacket (isSTUN cacheHit valid writeFails : Bool) (n : Int64) (hasSelected : Bool) :
+    IceGen.candidateBase_handleInboundPacket isSTUN cacheHit valid writeFails n hasSelected
+      = (if isSTUN then [IceTie.Order.c "handleInboundSTUNMessage"]
+        else IceTie.Order.c "validateSTUNTrafficCache" ::
+          (if cacheHit then [] else IceTie.Order.c "validateNonSTUNTraffic" ::
+            (if valid then [IceTie.Order.c "addRemoteCandidateCache"] else []))
+          ++ (if cacheHit || valid then
+                IceTie.Order.c "buf.Write" :: (if !writeFails && decide (n > 0) && hasSelected
+                  then [IceTie.Order.c1 "UpdatePacketReceived" (IceModel.Val.i n.toInt)] else [])
+              else [])) ∧
+    (∀ e ∈ IceGen.candidateBase_handleInboundPacket false cacheHit valid writeFails n hasSelected,
+      e = IceTie.Order.c1 "UpdatePacketReceived" (IceModel.Val.i n.toInt) →
+      writeFails = false ∧
+      IceTie.Order.pos (IceGen.candidateBase_handleInboundPacket false cacheHit valid writeFails n hasSelected) (IceTie.Order.c "buf.Write")
+        < IceTie.Order.pos (IceGen.candidateBase_handleInboundPacket false cacheHit valid writeFails n hasSelected) e) ∧
+    (∀ (a : Agent) (now : Nat) (l : Cand) (src len : Nat),
+      (a.caches.find? fun (lu, s, _) => lu == l.uid && s == src) = none → a.findRemote l.net src = none →
+      a.inboundData now l src len = (a, [])) :=
+  ⟨IceTie.Order.handleInboundPacket_tie isSTUN cacheHit valid writeFails n hasSelected,
+   (IceTie.Order.handleInboundPacket_order cacheHit valid writeFails n hasSelected).2,
+   IceTie.Order.inboundData_shape⟩
+
+example : IceGen.candidateBase_handleInboundPacket false false false false 10 true
+      = [IceModel.Eff.call "validateSTUNTrafficCache" [], IceModel.Eff.call "validateNonSTUNTraffic" []] ∧
+    IceGen.candidateBase_handleInboundPacket false true false false 10 true
+      = [IceModel.Eff.call "validateSTUNTrafficCache" [], IceModel.Eff.call "buf.Write" [],
+         IceModel.Eff.call "UpdatePacketReceived" [IceModel.Val.i 10]] ∧
+    IceGen.candidateBase_handleInboundPacket false true false true 10 true
+      = [IceModel.Eff.call "validateSTUNTrafficCache" [], IceModel.Eff.call "buf.Write" []] := by decide
 
 end IceProps.C07
